@@ -8,8 +8,16 @@
    The correspondence run (harness/c01.py, pass `tcase`) compares print_story of every generated AST with the
    Python printer's lines for the same AST inside Coq (print_case_bad below).
 
-   Also here: `printable`, the executable well-formedness predicate under which
-   Proofs/SourcePrintProofs.v proves  parse (print_story s) = POk (compile_ref s). *)
+   Also here: `printable pp is_call s`, the executable well-formedness predicate under which
+   Proofs/SourcePrintProofs.v proves  parse_real pp is_call (print_story s) = POk (compile_ref s)  (Props/C01.v).
+   It is a conjunction of
+     * conditions on the atoms of the AST (characters that may not occur, first characters, trimmed strings);
+     * conditions on the printed lines (line_ok: no `/`, `^`, newline, no trailing white space);
+     * three conditions stated through validators of the parser model itself, each applied
+       to one printed fragment: validate_choice_syntax on the printed choice line (a pure validator), and
+       validate_passage_arguments and _determine_initial_passage on compile_ref s (the two post passes of the compiler,
+       with the oracles pp / is_call for Python's own parser); py_stmt_ok pp on every ~ statement.
+   Every generated AST of harness/c01.py satisfies it (counted on every run: ast_not_printable). *)
 From Coq Require Import String Ascii List Bool Arith.
 From Bardic Require Import PyStr Value Compiled Source Lex ParseBase ParseLine ParseMain.
 Import ListNotations.
@@ -333,29 +341,28 @@ Fixpoint sections_ok (body : list item) (sec : nat) (pending : list (nat * schoi
       end
   end.
 
-Definition str_opt_eqb (a b : option string) : bool :=
-  match a, b with Some x, Some y => String.eqb x y | None, None => true | _, _ => false end.
-Fixpoint params_eqb (a b : list param) : bool :=
-  match a, b with
-  | [], [] => true
-  | x :: r, y :: s => String.eqb (pname x) (pname y) && str_opt_eqb (pdefault x) (pdefault y) && params_eqb r s
-  | _, _ => false
-  end.
-
-(* the header `:: name(params)`: a valid passage name; the parameter list is one that parse_passage_params
-   reads back (identifiers, no keyword, no duplicate, required before optional, defaults without top-level comma) *)
-Definition header_ok (name : string) (ps : list param) : bool :=
-  valid_passage_pattern name &&
-  match ps with
-  | [] => true
-  | _ =>
-      let pstr := join ", " (map print_param ps) in
-      paren_free pstr && trimmed pstr && nonempty pstr &&
-      match parse_passage_params pstr with POk l => params_eqb l ps | _ => false end
-  end.
-
 Fixpoint names_nodup (l : list string) : bool :=
   match l with [] => true | x :: r => negb (str_in x r) && names_nodup r end.
+
+(* the header `:: name(params)`: a valid passage name; parameters: identifiers that are not keywords, all different,
+   required ones before optional ones; a default is trimmed and has no comma and no bracket of any kind *)
+Definition default_ok (d : string) : bool :=
+  trimmed d && all_chars (fun c => negb (ch c "," || is_opener c || is_closer c)) d.
+Definition param_ok (p : param) : bool :=
+  is_identifier (pname p) && negb (is_keyword (pname p)) &&
+  match pdefault p with None => true | Some d => default_ok d end.
+Fixpoint required_first (ps : list param) (seen : bool) : bool :=
+  match ps with
+  | [] => true
+  | p :: r => match pdefault p with
+              | None => negb seen && required_first r seen
+              | Some _ => required_first r true
+              end
+  end.
+Definition params_ok (ps : list param) : bool :=
+  forallb param_ok ps && names_nodup (map pname ps) && required_first ps false.
+Definition header_ok (name : string) (ps : list param) : bool :=
+  valid_passage_pattern name && params_ok ps.
 
 Section Printable.
 Variable pp : pyparse.
